@@ -118,10 +118,10 @@ def run_case(case, cnt=None, root=None):
         indent = rnd.choice(["\t", "    ", "", "\t\t", " \t"])
         f = faults.render(case["fault"], indent)
         names = host["linked"] + host["included"]
-        if case["fault"] in ("second-link",):
+        if case["fault"] in ("second-link", "backward-skip-late-target"):
             names = host["linked"]
         where = rnd.choice(names)
-        if rnd.random() < 0.12 and case["fault"] not in ("second-link",):
+        if rnd.random() < 0.12 and case["fault"] not in ("second-link", "backward-skip-late-target"):
             # two included files with the SAME name in different directories, each included by a file of its own directory with the
             # same operand text; the fault sits in the one that is included later
             host["texts"]["same7.mac"] = ["\tnop", "\t.even", "\t.word 1"]
